@@ -335,6 +335,7 @@ def c05_rf10(run):
     rf_abi.rf10e(run)
     rf_abi.rf10h(run)
     rf_abi.rf10i(run)
+    rf_abi.rf10j(run)
     rf_dispatch.rf7e(run, units=('gen',), expect=1)
     rf_dispatch.rf7f(run)
     run.min_instances('RF7f', 30)
